@@ -333,12 +333,31 @@ func rollbackFaultScenario(kind, mode string, catchUp, nilOnError bool) func(*fa
 	}
 }
 
+// longSetName returns a valid DNS-1123 name of n characters.
+func longSetName(n int) string {
+	const unit = "tidb-cluster-production-"
+	b := []byte{}
+	for len(b) < n {
+		b = append(b, unit...)
+	}
+	b = b[:n]
+	if b[n-1] == '-' {
+		b[n-1] = 'x'
+	}
+	return string(b)
+}
+
 func init() {
 	directedC06 = []func(*fam){
 		claimHistory(asv1.OrderedReadyPodManagement, "web", 1), claimHistory(asv1.ParallelPodManagement, "web", 0),
 		claimHistory(asv1.OrderedReadyPodManagement, "db-1", 2), claimHistory(asv1.ParallelPodManagement, "a-0", 1),
 		claimHistoryX(asv1.OrderedReadyPodManagement, "web", 1, true), claimHistoryX(asv1.ParallelPodManagement, "web", 2, true),
 		claimFaults("500"), claimFaults("exists"), claimFaults("timeout"),
+		// set names so long that <set>-<ordinal> no longer fits a DNS label (63): name, hostname and claim names
+		// must still be exactly S-i / T-S-i, and distinct per ordinal (names above 63 are not used: the fake clientset
+		// panics on the upgrade-marker selector value where a real server answers 400)
+		claimHistory(asv1.OrderedReadyPodManagement, longSetName(62), 1), claimHistory(asv1.ParallelPodManagement, longSetName(63), 0),
+		claimHistory(asv1.ParallelPodManagement, longSetName(61), 2),
 	}
 	directedC08 = []func(*fam){collisionScenario(false), collisionScenario(true),
 		collisionScenario2(false, true, true), collisionScenario2(false, true, false), collisionScenario2(false, false, true), collisionScenario2(true, true, true),
